@@ -280,6 +280,114 @@ let c09 lineno (f : string array) =
     else Printf.printf "FAIL\t%d\tmodel=-\tspec=%s\n" lineno (String.concat "," strs)
   | _ -> hist lineno f
 
+(* ---- c07: rounds of concurrent requests; a round is linearizable iff some sequential order
+   of its requests reproduces every observed response on the model ------------------------ *)
+let c07_cands : M.hstate list ref = ref [M.hinit]
+let c07_round : (M.hop * M.obs) list ref = ref []
+let c07_in_round = ref false
+let c07_probes : (M.hop * M.obs) list ref = ref []
+let c07_in_probe = ref false
+let c07_desync = ref false   (* after a non-linearizable round the model state is unknown: skip the rest of the history *)
+
+let is_spec_tag (r : M.n list) = let s = string_of_bytes r in String.length s >= 2 && String.sub s 0 2 = "S:"
+let spec_clean l = not (List.exists is_spec_tag l)
+
+let dedupe (l : M.hstate list) : M.hstate list =
+  let rec go acc = function [] -> List.rev acc | x :: r -> if List.exists (fun y -> y = x) acc then go acc r else go (x :: acc) r in
+  let d = go [] l in
+  if List.length d > 64 then List.filteri (fun i _ -> i < 64) d else d
+
+let rec remove_nth i = function [] -> [] | x :: r -> if i = 0 then r else x :: remove_nth (i - 1) r
+
+(* level-wise search over (set of requests already linearized, model state), deduplicated *)
+let search cfg (hs : M.hstate) (ops : (M.hop * M.obs) list) : M.hstate list =
+  let n = List.length ops in
+  let arr = Array.of_list ops in
+  let level = ref [(0, hs)] in
+  for _ = 1 to n do
+    let next = ref [] in
+    List.iter (fun (mask, st) ->
+        for i = 0 to n - 1 do
+          if mask land (1 lsl i) = 0 then begin
+            let (o, ob) = arr.(i) in
+            let (st', l) = M.hist_step md5 cfg st o ob in
+            if spec_clean l then begin
+              let m' = mask lor (1 lsl i) in
+              if not (List.exists (fun (m2, s2) -> m2 = m' && s2 = st') !next) then next := (m', st') :: !next
+            end
+          end
+        done) !level;
+    level := !next
+  done;
+  dedupe (List.map snd !level)
+
+let key_of (o : M.hop) : (M.n list * M.n list) option =
+  match o with
+  | M.HPut (b, k, _, _) | M.HGet (b, k, _) | M.HHead (b, k, _) | M.HDelete (b, k) -> Some (b, k)
+  | _ -> None
+
+let c07 lineno (f : string array) =
+  match f.(1) with
+  | "H" ->
+    hist lineno f;  (* parses the config and resets the single-state machinery *)
+    c07_cands := [!hist_state]; c07_in_round := false; c07_desync := false
+  | "E" -> print_string "SKIP\n"
+  | _ when !c07_desync -> print_string "SKIP\n"
+  | "HANG" -> Printf.printf "FAIL\t%d\tmodel=-\tspec=hang:%s\n" lineno (String.map (fun c -> if c = ' ' then '-' else c) (raw_of_hex f.(2)))
+  | "RB" -> c07_in_round := true; c07_in_probe := false; c07_round := []; c07_probes := []; print_string "SKIP\n"
+  | "RP" -> c07_in_probe := true; print_string "SKIP\n"
+  | "RE" ->
+    c07_in_round := false;
+    let ops = List.rev !c07_round in
+    let probes = List.rev !c07_probes in
+    let apply_probes cands prs =
+      List.fold_left (fun cs (o, ob) ->
+          dedupe (List.concat (List.map (fun hs -> let (hs', l) = M.hist_step md5 !hist_cfg hs o ob in
+                                          if spec_clean l then [hs'] else []) cs))) cands prs in
+    let single = List.for_all (fun (o, _) -> key_of o <> None) ops in
+    let next =
+      if single then begin
+        let keys = List.sort_uniq compare (List.map (fun (o, _) -> key_of o) (ops @ probes)) in
+        List.fold_left (fun cands k ->
+            let grp = List.filter (fun (o, _) -> key_of o = k) ops in
+            let prs = List.filter (fun (o, _) -> key_of o = k) probes in
+            apply_probes (dedupe (List.concat (List.map (fun hs -> search !hist_cfg hs grp) cands))) prs) !c07_cands keys
+      end else apply_probes (dedupe (List.concat (List.map (fun hs -> search !hist_cfg hs ops) !c07_cands))) probes in
+    if next = [] then begin
+      if Sys.getenv_opt "VERIF_DEBUG" <> None then begin
+        Printf.eprintf "round at line %d: %d candidates\n" lineno (List.length !c07_cands);
+        List.iteri (fun ci hs -> if ci < 4 then
+          List.iter (fun (o, _) -> match key_of o with
+            | Some (b, k) -> (match M.get_object hs.M.hs_model b k with
+                | M.OObj (v, _) -> Printf.eprintf "  cand %d: %s = %S\n" ci (string_of_bytes k) (string_of_bytes v.M.vd_body)
+                | M.OErr _ -> Printf.eprintf "  cand %d: %s = <none>\n" ci (string_of_bytes k))
+            | None -> ()) ops) !c07_cands
+      end;
+      (* keep going from the state reached by the recorded order, to report later rounds sensibly *)
+      let hs = List.fold_left (fun hs (o, ob) -> fst (M.hist_step md5 !hist_cfg hs o ob)) (List.hd !c07_cands) ops in
+      c07_cands := [hs]; c07_desync := true;
+      let names = String.concat "," (List.map (fun (o, _) -> match o with
+          | M.HPut _ -> "put" | M.HGet _ -> "get" | M.HHead _ -> "head" | M.HDelete _ -> "delete" | M.HCopy _ -> "copy" | _ -> "other") ops) in
+      Printf.printf "FAIL\t%d\tmodel=-\tspec=not-linearizable:no-sequential-order-of-the-%d-concurrent-requests-explains-the-responses:ops=%s\n" lineno (List.length ops) names
+    end else (c07_cands := next; print_string "OK\n")
+  | "O" when !c07_in_round ->
+    let ai = arrow_index f in
+    if !c07_in_probe then c07_probes := (parse_hop f, parse_obs f (ai + 1)) :: !c07_probes
+    else c07_round := (parse_hop f, parse_obs f (ai + 1)) :: !c07_round;
+    print_string "SKIP\n"
+  | "O" ->
+    let ai = arrow_index f in
+    let o = parse_hop f and ob = parse_obs f (ai + 1) in
+    let stepped = List.map (fun hs -> M.hist_step md5 !hist_cfg hs o ob) !c07_cands in
+    let good = List.filter (fun (_, l) -> spec_clean l) stepped in
+    (match good with
+     | [] -> c07_cands := dedupe (List.map fst stepped); verdict_tagged lineno (snd (List.hd stepped))
+     | _ -> c07_cands := dedupe (List.map fst good);
+       (* model-only mismatches are reported only if every candidate has them *)
+       let ls = List.map snd good in
+       if List.exists (fun l -> l = []) ls then print_string "OK\n" else verdict_tagged lineno (List.hd ls))
+  | _ -> hist lineno f
+
 let () =
   let lineno = ref 0 in
   (try
@@ -293,6 +401,7 @@ let () =
        | "c12" -> c12 !lineno f
        | "c16" -> c16 !lineno f
        | "c09" -> c09 !lineno f
+       | "c07" -> c07 !lineno f
        | "c01" | "c02" | "c03" | "c04" | "c05" | "c06" | "c08" | "c10" | "c13" | "c14" | "c15" -> hist !lineno f
        | "#" -> print_string "OK\n"
        | k -> failwith ("unknown case kind " ^ k))
